@@ -543,6 +543,9 @@ func (e *VerifEnum) Parent() protoreflect.Descriptor {
 	return e.parent
 }
 func (e *VerifEnum) Options() protoreflect.ProtoMessage {
+	if o, ok := e.file.u.fakeOptionsOf(e.full); ok {
+		return o
+	}
 	if e.ep.Options == nil {
 		return (*descriptorpb.EnumOptions)(nil)
 	}
@@ -586,6 +589,9 @@ func (v *VerifEnumValue) Number() protoreflect.EnumNumber {
 func (v *VerifEnumValue) ParentFile() protoreflect.FileDescriptor { return v.enum.file }
 func (v *VerifEnumValue) Parent() protoreflect.Descriptor         { return v.enum }
 func (v *VerifEnumValue) Options() protoreflect.ProtoMessage {
+	if o, ok := v.enum.file.u.fakeOptionsOf(string(v.FullName())); ok {
+		return o
+	}
 	if v.vp.Options == nil {
 		return (*descriptorpb.EnumValueOptions)(nil)
 	}
